@@ -532,7 +532,7 @@ func checkDefs() map[string]*CheckDef {
 			Runs: []ProfRun{{"core", 64, 1200}, {"extreme", 48, 900}, {"native", 16, 300}},
 			Mons: func(r *Runner) []Monitor { return []Monitor{NewMonC03(r)} },
 			Required: []string{"C03.slash", "C03.take-rate", "C03.tx.undelegate", "C03.tx.redelegate", "C03.validator-removed-with-delegations", "C03.drain-resets-foreign-dust"},
-			Rule: "seeded random histories (core/extreme); after every step the share sums are recomputed from an independent decoder of the raw module store and compared exactly with the recorded totals, negatives and reset-on-drain are checked, and the module's registered invariants plus all SDK invariants (crisis) run every block; a situation class = step kind x slash-fraction class x drained-asset/take-rate situations",
+			Rule: "seeded random histories (core/extreme/native incl. validators leaving, joining and being removed by x/staking) and scripted drains with surviving share dust; after every step the share sums are recomputed from an independent decoder of the raw module store and compared exactly with the recorded totals, negatives and reset-on-drain are checked, and the module's registered invariants plus all SDK invariants (crisis) run every block; a situation class = step kind x slash-fraction class x drained-asset/take-rate situations",
 			Assumptions: commonAssumptions,
 		},
 		{
@@ -692,7 +692,7 @@ func valueDefs() []*CheckDef {
 			Mons: func(r *Runner) []Monitor { return []Monitor{NewMonC12(r), NewMonC05(r)} },
 			ProbeEvery: 4,
 			Required: []string{"C05.state/slashes0", "C05.state/slashes1", "C05.state/slashes3", "C05.validator-removed"},
-			Rule: "after every k-th step of seeded histories (slashes of every fraction up to 100%, take-rate deductions, jailed/unbonded validators, warm-up) probe transactions on discarded branches: delegate 1 unit and a large amount of every asset to every validator, and for every position with a positive reported balance claim then undelegate the full reported balance; each must succeed; failures are matched against the recorded mechanisms (zero-value-validator, pool-short, precision-18dec) and are violations otherwise; a situation class = (slashes so far, jailed validators, number of positions)",
+			Rule: "after every k-th step of seeded histories (slashes of every fraction up to 100%, take-rate deductions, jailed/unbonded validators, warm-up) probe transactions on discarded branches: delegate 1 unit and a large amount of every asset to every validator, and for every position with a positive reported balance claim then undelegate the full reported balance, and undelegate from every delegation record whose validator record is gone; each must succeed; failures are matched against the recorded mechanisms (zero-value-validator, pool-short, precision-18dec) and are violations otherwise; a situation class = (slashes so far, jailed validators, number of positions)",
 			Assumptions: commonAssumptions,
 		},
 	}
@@ -796,7 +796,7 @@ func lateDefs() []*CheckDef {
 			Runs: []ProfRun{{"queue", 24, 500}, {"core", 24, 500}, {"gov", 8, 200}, {"extreme", 8, 150}},
 			Mons: func(r *Runner) []Monitor { return []Monitor{NewMonC19(r)} },
 			Required: []string{"C19.block/slashes1", "C19.block/slashes0/redels3", "matured1", "C19.replays-compared"},
-			Rule: "every seeded history is executed and then replayed twice more (quick) from its explicit step list on sibling branches of the same post-genesis state within one process; after every transaction the result and an event digest, after every block the begin/end-block results, event digests and a SHA-256 of the raw dump of the alliance, bank, staking, distribution, slashing and auth stores must be identical across replays (Go randomises map iteration per loop; addresses and scheduling differ between replays); thorough additionally runs histories concurrently in separate app instances under the race detector; the static clause of the property (source scan) is out of reach of runtime monitoring and not decided; a situation class = (slashes in block, pending redelegations, pending unbondings, matured entries)",
+			Rule: "every seeded history is executed and then replayed twice more (quick) from its explicit step list on sibling branches of the same post-genesis state within one process, one of the two replays with every step first executed on a branch that is thrown away (this block's end and the ends of two further blocks for a block step): nothing of a discarded branch may influence the real execution; after every transaction the result and an event digest, after every block the begin/end-block results, event digests and a SHA-256 of the raw dump of the alliance, bank, staking, distribution, slashing and auth stores must be identical across replays (Go randomises map iteration per loop; addresses and scheduling differ between replays); thorough additionally runs histories concurrently in separate app instances under the race detector; the static clause of the property (source scan) is out of reach of runtime monitoring and not decided; a situation class = (slashes in block, pending redelegations, pending unbondings, matured entries)",
 			Assumptions: append(append([]string{}, commonAssumptions...), "the static 'for all current and future code paths' clause of C19 (AST scan) is not decided by this technique"),
 		},
 		{
